@@ -574,7 +574,30 @@ func (p *Program) retarget(f *File, d *Def, text string, to *Def) {
 // injectInvalid makes the program uncompilable in one place.
 func (p *Program) injectInvalid() {
 	f := p.Files[ch("invalid.file", len(p.Files))]
-	switch ch("invalid.kind", 12) {
+	switch ch("invalid.kind", 14) {
+	case 12, 13:
+		var enums []*Def
+		for _, d := range f.Defs {
+			if d.Kind == KEnum && len(d.Items) > 0 && !strings.Contains(d.Name, ".") {
+				enums = append(enums, d)
+			}
+		}
+		if len(enums) == 0 {
+			enums = append(enums, p.add(f, &Def{Kind: KEnum, Name: p.name("E"), Items: []EnumItem{{Name: p.name("IT"), Value: 0}, {Name: p.name("IT"), Value: 1}}}))
+		}
+		e := enums[ch("invalid.enum", len(enums))]
+		it := e.Items[ch("invalid.item", len(e.Items))]
+		if ch("invalid.enum-ref-kind", 2) == 0 {
+			// an enum item qualified with a typedef of the enum: `typedef E T; const T c = T.ITEM`
+			td := p.add(f, &Def{Kind: KTypedef, Name: p.name("Te"), Type: &TypeRef{Ref: &Ref{e.File, e.Name}}})
+			p.add(f, &Def{Kind: KConst, Name: p.name("C"), Type: &TypeRef{Ref: &Ref{td.File, td.Name}}, Value: &ConstVal{Kind: CRef, Ref: &Ref{td.File, td.Name}, Item: it.Name}})
+			p.Invalid = "enum item qualified with a typedef name in " + f.RelPath()
+		} else {
+			// an item of one enum where another enum is declared
+			other := p.add(f, &Def{Kind: KEnum, Name: p.name("E"), Items: []EnumItem{{Name: p.name("IT"), Value: 0}, {Name: p.name("IT"), Value: 1}}})
+			p.add(f, &Def{Kind: KConst, Name: p.name("C"), Type: &TypeRef{Ref: &Ref{other.File, other.Name}}, Value: &ConstVal{Kind: CRef, Ref: &Ref{e.File, e.Name}, Item: it.Name}})
+			p.Invalid = "item of enum " + e.Name + " given for enum " + other.Name + " in " + f.RelPath()
+		}
 	case 6:
 		// a cycle of typedefs (no struct on the way), possibly through a container
 		n := 1 + ch("invalid.cycle-len", 3)
